@@ -61,6 +61,8 @@ mod c20;
 #[cfg(feature = "security")]
 mod c16;
 #[cfg(feature = "security")]
+mod c18;
+#[cfg(feature = "security")]
 mod c19;
 
 fn main() {
@@ -175,6 +177,10 @@ fn main() {
       }
       0
     }
+    #[cfg(feature = "security")]
+    ("C18", None) => c18::run(&tier),
+    #[cfg(feature = "security")]
+    ("C18", Some(d)) => c18::replay(&d),
     #[cfg(feature = "security")]
     ("C19", None) => c19::run(&tier),
     #[cfg(feature = "security")]
